@@ -175,6 +175,15 @@ def rule_diff(ctx):
                          '(the inner differences would use the default scheme / padding)' % bad, node=rec[0].node)
         else:
             ctx.holds('R2', 'recursion: obj.diff(n=n-1, axis=idx, scheme=scheme, keepaxis=keepaxis)')
+    # every result for n > 1 is built from the (n-1)-th difference of the same array: a one-shot np.diff(n=n) path labels centered differences with
+    # the centre of the (n+1)-point stencil, which differs from the successive midpoints for non-uniform labels
+    for scheme, keep in (('forward', False), ('forward', True), ('backward', False), ('backward', True), ('centered', False)):
+        evn = run(ctx, fi, facts=facts_rec, bind={'scheme': const(scheme), 'keepaxis': const(keep)})
+        for p in ret_paths(evn):
+            if not any(T.call_receiver(e.a) == OBJ for e in p.calls('diff')):
+                ctx.violated('R2', fi, 'n > 1 without recursion', 'scheme=%s keepaxis=%s: a result for n > 1 is returned without going through obj.diff(n=n-1, ...): the n-th difference and '
+                             'its labels must be the first difference of the (n-1)-th (got %s)' % (scheme, keep, T.show(p.value)[:80]), node=p.node)
+                break
     ev2 = run(ctx, fi, facts=not_none)
     for p in ev2.paths:
         for e in p.calls('diff'):
